@@ -103,10 +103,30 @@ pub fn generate(seed: u64, tier: &str, sink: &mut Sink) {
                 (gen_name(&mut rng), data, filename, mime)
             })
             .collect();
-        let (texts, files) = match force {
+        let (mut texts, mut files) = match force {
             Some((t, f)) => (t, f),
             None => (texts, files),
         };
+        // field names may repeat — among the text fields, among the files, and between the two kinds (checkbox
+        // groups, multi-file inputs): every field that was added is a part, in order (seed C15-seed10: a second
+        // text field of the same name replaced the first)
+        if i % 3 == 0 {
+            if texts.len() >= 2 {
+                let n0 = texts[0].0.clone();
+                let last = texts.len() - 1;
+                texts[last].0 = n0.clone();
+                if texts.len() >= 3 && i % 2 == 0 {
+                    texts[1].0 = n0;
+                }
+            }
+            if files.len() >= 2 {
+                let n0 = files[0].0.clone();
+                files[1].0 = n0;
+            }
+            if !texts.is_empty() && !files.is_empty() && i % 6 == 0 {
+                files[0].0 = texts[0].0.clone();
+            }
+        }
         let (nt, nf) = (texts.len(), files.len());
         let case = SendCase {
             method: "POST".into(),
